@@ -38,6 +38,16 @@ CLAIMED = {
              'definition; double definitions across every source pair. Probe bytes must equal evaluate(substitute(line)); used '
              'cycles and double definitions must be rejected (and terminate: step-bounded).',
         note='Trusted: vf/model/subst.py + vf/model/expr.py parser/evaluator; unused cycles are DONT_CARE.'),
+    'C10': dict(
+        category='exploration', design_ref='DESIGN.md §3 C10',
+        technique='runtime monitoring: metamorphic oracle — program with macro invocations vs harness-expanded program, both '
+                  'through the real CLI under the same generated ISA',
+        text='Generated macro definitions (1..3 variants, 1..4 steps, @ARG/@REG/@OP over numeric, address, relative, register, '
+             'indirect-register, enumeration operands; steps that are not whole bytes; address-relative steps; forward/backward '
+             'label operands) — the image of the program with macros (including a label probe after them) must equal the image '
+             'of the hand-expanded program; unfillable placeholders must be rejected.',
+        note='Trusted: the placeholder substitution in vf/oracles/c10.py; encoding of the expanded instructions is the real '
+             'assembler\'s (C01 covers it).'),
     'C11': dict(
         category='exploration', design_ref='DESIGN.md §3 C11',
         technique='runtime monitoring: byte-model oracle over real CLI runs of generated data/string/fill programs',
